@@ -1,5 +1,6 @@
 CONSTANT Merge = "copy"
 CONSTANT MaxOps = 5
+CONSTANT NPairs = 6
 CONSTANT NTrees = 6
 CONSTANT NKw = 5
 CONSTANT WithPut = TRUE
